@@ -603,9 +603,37 @@ package statsd
 //@   ensures  [outcome] calls(post) == 0 ==> hfh.messagesInvalid == wrapu64(old(hfh.messagesInvalid) + 1) && hfh.messagesSent == old(hfh.messagesSent) && hfh.messagesDropped == old(hfh.messagesDropped)
 //@   ensures  [outcome] calls(post) >= 1 ==> hfh.messagesInvalid == old(hfh.messagesInvalid)
 //@   modifies everything
+// constructPost (C14/C15): the message is serialised once; the body is compressed exactly when compression is
+// configured, by the configured algorithm, into a buffer of its own, and the Content-Encoding label names the
+// transformation that was applied to the body. Every attempt posts that same body through a reader of its own, with
+// that label, and reports success only for a 2xx answer.
+//@ func (*HttpForwarderHandlerV2).serializeAndCompress
+//@   requires hfh != nil
+//@   callsite CompressWithLz4 requires arg0 == lastresult(hfh.serialize, 0) && payload(out, bytes.Buffer) == buf && fresh(buf) && hfh.compressionType == web.Lz4
+//@   callsite CompressWithZlib requires arg0 == lastresult(hfh.serialize, 0) && payload(out, bytes.Buffer) == buf && fresh(buf) && hfh.compressionType != web.Lz4
+//@   callsite Bytes requires receiver == buf
+//@   ensures  [codec] err == nil ==> data == lastresult(buf.Bytes, 0) && calls(CompressWithLz4) + calls(CompressWithZlib) == 1
+//@   ensures  [codec] err == nil && hfh.compressionType == web.Lz4 ==> contentEncoding == "lz4"
+//@   ensures  [codec] err == nil && hfh.compressionType != web.Lz4 ==> contentEncoding == "deflate"
+//@   modifies everything
+//@   preserves statsd.HttpForwarderHandlerV2
 //@ func (*HttpForwarderHandlerV2).constructPost
-//@   trusted
+//@   requires hfh != nil && logger != nil
 //@   ensures  result1 == nil ==> result0 != nil
+//@   ensures  [codec] result1 == nil && old(hfh.compress && hfh.compressionType != web.None) ==> calls(hfh.serializeAndCompress) == 1 && calls(hfh.serialize) == 0 && local(body) == lastresult(hfh.serializeAndCompress, 1) && local(encoding) == lastresult(hfh.serializeAndCompress, 0)
+//@   ensures  [codec] result1 == nil && !old(hfh.compress && hfh.compressionType != web.None) ==> calls(hfh.serializeAndCompress) == 0 && calls(hfh.serialize) == 1 && local(body) == lastresult(hfh.serialize, 0) && local(encoding) == "identity"
+//@   modifies everything
+//@   preserves statsd.HttpForwarderHandlerV2
+//@ func (*HttpForwarderHandlerV2).constructPost$1
+//@   captures hfh != nil && logger != nil
+//@   callsite NewReader requires b == body && calls(NewReader) == 0
+//@   callsite NewRequest requires payload(arg2, bytes.Reader) == lastresult(bytes.NewReader, 0) && calls(NewReader) == 1 && calls(NewRequest) == 0 && method == "POST" && url == path
+//@   callsite Set[Content-Encoding] requires value == encoding && calls(Do) == 0
+//@   callsite Do requires calls(Do) == 0 && calls(NewRequest) == 1
+//@   loop 1 invariant calls(Do) == 0 && calls(NewRequest) == 1 && calls(NewReader) == 1 && req != nil && hfh != nil
+//@   loop 2 invariant calls(Do) == 0 && calls(NewRequest) == 1 && calls(NewReader) == 1 && req != nil && hfh != nil
+//@   ensures  [attempt] calls(Do) <= 1 && body == old(body) && encoding == old(encoding)
+//@   ensures  [attempt] result == nil ==> calls(Do) == 1 && lastresult(Do, 1) == nil && 200 <= lastresult(Do, 0).StatusCode && lastresult(Do, 0).StatusCode < 300
 //@   modifies everything
 //@   preserves statsd.HttpForwarderHandlerV2
 
